@@ -1,3 +1,4 @@
+import TsProofs.Properties.C14
 import TsProofs.CommitFacts
 /-!
 # C02 — Metadata is committed last: a crash leaves no snapshot or a complete one
@@ -151,5 +152,41 @@ example :
 
 example : ∀ k, k < [1, 2, 3, 4].length → (fun b => b == [1, 2, 3, 4]) (List.take k [1, 2, 3, 4]) = false := by
   decide
+
+/-- The metadata reader of C14 as the `reader` parameter of the crash model: a cut store's metadata object
+is readable iff the JSON reader accepts it. -/
+def jsonReadable (bytes : List Nat) : Bool :=
+  match Ts.Manifest.readMetadata bytes with
+  | .ok _ => true
+  | .error _ => false
+
+/-- **Crash atomicity with the real metadata format.** `C02_crash_atomic` instantiated with the metadata
+printer / reader of C14: the "every torn prefix is rejected" premise is discharged by
+`C14_strict_prefix_rejected` (every strict prefix of the serialized metadata makes the reader run out of
+input), for every well-formed metadata object. So at every crash instant of every sync or async run, with
+in-flight writes resolved adversarially, either the snapshot cannot be opened, or its metadata is the complete
+document and every payload object of every rank is completely written. -/
+theorem C02_crash_atomic_json (cfg : Cfg) (sched : List Lbl) (cut : List Ev)
+    (md : Ts.Manifest.SnapshotMetadata) (hwf : md.wf = true) (res : Resolve) :
+    (cut <+: (srun cfg SState.init sched).trace →
+      readableAt jsonReadable (Ts.Manifest.printMetadata md) cut res = false ∨
+      (readableAt jsonReadable (Ts.Manifest.printMetadata md) cut res = true ∧
+        metaAt (Ts.Manifest.printMetadata md) cut res = some (Ts.Manifest.printMetadata md) ∧
+        ∀ r w, r < cfg.n → w < cfg.nw r → payloadAt cut res r w = .complete)) ∧
+    (∀ st, Fresh st cfg.pfx → cut <+: (arun cfg (AState.init st) sched).trace →
+      readableAt jsonReadable (Ts.Manifest.printMetadata md) cut res = false ∨
+      (readableAt jsonReadable (Ts.Manifest.printMetadata md) cut res = true ∧
+        metaAt (Ts.Manifest.printMetadata md) cut res = some (Ts.Manifest.printMetadata md) ∧
+        ∀ r w, r < cfg.n → w < cfg.nw r → payloadAt cut res r w = .complete)) := by
+  apply C02_crash_atomic cfg sched cut jsonReadable (Ts.Manifest.printMetadata md) _ res
+  intro k hk
+  have hsplit : (Ts.Manifest.printMetadata md).take k ++ (Ts.Manifest.printMetadata md).drop k
+      = Ts.Manifest.printMetadata md := List.take_append_drop k _
+  have hne : (Ts.Manifest.printMetadata md).drop k ≠ [] := by
+    intro h
+    have := congrArg List.length h
+    simp at this
+    omega
+  simp [jsonReadable, Ts.Manifest.C14_strict_prefix_rejected md hwf _ _ hne hsplit]
 
 end Ts.Commit
